@@ -34,7 +34,9 @@ fn round(ph: &str, w: i64, r: Value) -> Value {
 }
 
 /// Executes the protocol on the real code; returns the observed rounds.
-fn execute(t: &Value, req: &str, cfg: &str) -> Vec<Value> {
+/// `drop_early`: the factory is dropped as soon as `new_service` returned its future, and the service as soon as `call`
+/// returned its future - the futures must be self-contained (a legal use the reference composition does not distinguish).
+fn execute(t: &Value, req: &str, cfg: &str, drop_early: bool) -> Vec<Value> {
     reset_recorder();
     let mut log: Vec<Value> = vec![];
     macro_rules! guard {
@@ -52,6 +54,8 @@ fn execute(t: &Value, req: &str, cfg: &str) -> Vec<Value> {
     let svc: Dyn = if is_factory(t) {
         let fac = guard!("new", 0, build_fac(t));
         let mut fut = guard!("new", 0, fac.new_service(Cfg(cfg.to_string())));
+        let fac = if drop_early { drop(fac); None } else { Some(fac) };
+        let _keep_factory = fac;
         log.push(round("new", 0, res("ok", "")));
         loop {
             if log.len() >= MAX_ROUNDS {
@@ -96,6 +100,7 @@ fn execute(t: &Value, req: &str, cfg: &str) -> Vec<Value> {
     }
 
     let mut fut = guard!("call", 0, svc.call(Val(req.to_string())));
+    let _keep_service = if drop_early { drop(svc); None } else { Some(svc) };
     log.push(round("call", 0, res("ok", "")));
     loop {
         if log.len() >= MAX_ROUNDS {
@@ -159,7 +164,9 @@ fn main() {
         let t = &sch["t"];
         let req = sch["req"].as_str().unwrap_or("");
         let cfg = sch["cfg"].as_str().unwrap_or("");
-        let obs = execute(t, req, cfg);
+        // every other vector is executed with the factory / service dropped as soon as its future exists
+        let drop_early = run % 2 == 1;
+        let obs = execute(t, req, cfg, drop_early);
         steps += obs.len();
         let empty = vec![];
         let exp = sch["log"].as_array().unwrap_or(&empty);
@@ -176,7 +183,7 @@ fn main() {
         }
         if (diff.is_some() && nmis <= max_flagged) || run % smod == srem {
             trace.emit(&json!({"ev": "reset", "run": run, "t": t, "req": req, "cfg": cfg,
-                               "flagged": diff.is_some()}));
+                               "flagged": diff.is_some(), "dropEarly": drop_early}));
             for r in &obs {
                 trace.emit(r);
             }
